@@ -25,6 +25,7 @@ DataAtoms == {
     [A("cdata") EXCEPT !.tok = "AA"], [A("sdata") EXCEPT !.tok = "BB"], [A("cdata") EXCEPT !.tok = "CC"],
     [A("data") EXCEPT !.tok = "BB"] }
 
+SubAtoms == {[A("sub_port") EXCEPT !.n = 1000], [A("sub_id") EXCEPT !.name = "tag/x"]}
 At(a)     == [op |-> "atom", a |-> a]
 Not(x)    == [op |-> "not", x |-> x]
 Bin(o, x, y) == [op |-> o, x |-> x, y |-> y]
@@ -42,7 +43,9 @@ Depth2   == {Bin(o, x, y) : o \in {"and", "or"}, x \in Lits, y \in Lits}
 SomePlain == {At(a) : a \in {b \in PlainAtoms : b.k \in {"sport", "tag", "id"}}}
 ChainMix == {Bin(o, c, l) : o \in {"and", "or"}, c \in Chains2, l \in SomePlain}
             \cup {Not(c) : c \in Chains2 \cup ChainsOr}
-Exhaustive == Lits \cup Depth2 \cup Chains \cup ChainMix
+\* restricted sub-queries: alone and in conjunction with one plain filter
+SubQs == {At(a) : a \in SubAtoms} \cup {Bin("and", At(a), l) : a \in SubAtoms, l \in {At(b) : b \in PlainAtoms} \cup {Not(At(b)) : b \in PlainAtoms}}
+Exhaustive == Lits \cup Depth2 \cup Chains \cup ChainMix \cup SubQs
 
 \* random deeper expressions.  Negating a conjunction multiplies the literal counts of its conjuncts in the normal
 \* form (exponential by construction, see C14), so NOT is applied to literals and to small expressions over
